@@ -30,18 +30,19 @@ for i in range(1, 21):
     from menpolint.calls import CallCtx
     from menpolint.astutil import calls_in
     files = set(PROPS[pid]["anchors"]["files"])
-    core = set(fns)
-    for f in project.all_functions():
-        if f.module.relpath not in files or f.qualname in fns:
-            continue
-        ctx = CallCtx(project, f, f.cls)
-        hit = False
-        for k in calls_in(f.node, include_nested=True):
-            for t in ctx.resolve_call(k):
-                if t.func.qualname in core:
-                    hit = True
-        if hit:
-            fns[f.qualname] = f
+    for _level in range(2):
+        core = set(fns)
+        for f in project.all_functions():
+            if f.module.relpath not in files or f.qualname in fns:
+                continue
+            ctx = CallCtx(project, f, f.cls)
+            hit = False
+            for k in calls_in(f.node, include_nested=True):
+                for t in ctx.resolve_call(k):
+                    if t.func.qualname in core:
+                        hit = True
+            if hit:
+                fns[f.qualname] = f
     per = {}
     for q, fi in sorted(fns.items()):
         used = check.params_read(fi.node)
